@@ -44,7 +44,8 @@ static Json rand_reply(Rng &r, int good, int64_t tmo) {
   if (k < 11) return rep((int)r.pick(std::vector<int>{200, 211, 220, 250, 251, 252, 299}), r.pick(forms));
   if (k == 11) return rep((int)r.pick(std::vector<int>{300, 354, 399}), r.pick(forms));
   if (k < 14) return rep((int)r.pick(std::vector<int>{400, 421, 450, 451, 452, 499}), r.pick(forms));
-  if (k < 17) return rep((int)r.pick(std::vector<int>{500, 550, 552, 553, 554, 599}), r.pick(forms));
+  if (k < 16) return rep((int)r.pick(std::vector<int>{500, 550, 552, 553, 554, 599, 600, 650, 700, 999}), r.pick(forms));
+  if (k == 16) { Json g = rep(999); g.set("text", r.pick(std::vector<std::string>{"ERROR: go away", "-ERR not here", "HTTP/1.1 400 Bad Request", "abc hello", " 250 leading space", "\xff\xfe\x01", "+OK"})); return g; }
   if (k == 17) return rep(good, "single", "close");
   if (k == 18) return rep(good, "single", "stall", r.chance(0.5) ? tmo + 50 : tmo - 50);
   return rep(good, "single", r.chance(0.5) ? "rst" : "dribble");
